@@ -3984,6 +3984,13 @@ impl<'a> ZonedDifference<'a> {
         let tz = zdt1.time_zone();
 
         let (dt1, mut dt2) = (zdt1.datetime(), zdt2.datetime());
+        // When both datetimes are on the same civil day, there are no whole
+        // days between them and the span is just the elapsed time. (Without
+        // this, two instants on either side of a fold on the same day can
+        // produce an intermediate datetime on the wrong side of `zdt2`.)
+        if dt1.date() == dt2.date() {
+            return zdt1.timestamp().until((Unit::Hour, zdt2.timestamp()));
+        }
 
         let mut day_correct: t::SpanDays = C(0).rinto();
         if -sign == dt1.time().until_nanoseconds(dt2.time()).signum() {
